@@ -2,8 +2,10 @@ import SophtVerif.Core.Grid
 import SophtVerif.Core.Table
 import SophtVerif.Core.Poly
 import SophtVerif.Gen.Kernels
-import SophtVerif.Gen.KernelsReal
-import SophtVerif.Gen.KernelsFloat
+
+import SophtVerif.Gen.Calls
+import SophtVerif.Core.Program
+import SophtVerif.Core.RatTransc
 import SophtVerif.Gen.Table
 import SophtVerif.Props.C04
 import SophtVerif.Props.C05
